@@ -165,7 +165,10 @@ def main():
     stats = {}
     extra_cov = {}
     if not build_broken:
-        impl, model, err = run_cases(plugin, cases, binaries, need_model=have_model)
+        # a model binary from an earlier build still marks the known-finding point of a history when the current
+        # build is broken (its verdicts are not used then)
+        stale_model = (not have_model) and os.path.exists(vlib.model_binary())
+        impl, model, err = run_cases(plugin, cases, binaries, need_model=have_model or stale_model)
         for c in cases:
             il = impl.get(c.id)
             if il is None:
@@ -179,12 +182,12 @@ def main():
                 samples.append({"case": c.id, "ops": c.lines[:6], "impl": il[:6]})
             for k in c.meta.get("tags", []):
                 stats[k] = stats.get(k, 0) + 1
-            if have_model and not c.meta.get("impl_only"):
+            if (have_model or stale_model) and not c.meta.get("impl_only"):
                 ml = model.get(c.id)
                 if hasattr(plugin, "compare"):
-                    if not plugin.compare(c, il, ml or []):
+                    if not plugin.compare(c, il, ml or []) and have_model:
                         disagreements.append((c, il, ml))
-                elif ml != il:
+                elif ml != il and have_model:
                     disagreements.append((c, il, ml))
             fail = plugin.oracle(c, il)
             if fail:
